@@ -292,9 +292,7 @@ def _merge(
             point_fields[name] = concatenate(
                 (
                     make_array(point_fields1[name]),
-                    make_array(
-                        [deepcopy(zero) for _ in range(len(fields2.domain.points))], dtype=point_fields1[name].dtype
-                    ),
+                    make_array([deepcopy(zero) for _ in range(len(points2_filter))], dtype=point_fields1[name].dtype),
                 )
             )
     for name in filter(lambda n: n not in point_fields, point_fields2):
